@@ -154,6 +154,14 @@ def run_case(case):
         return run_real(case)
     bs = case.get("bs", 8)
     fails = []
+    # a second transport object of the same kind in the same process, with data queued and never serviced: the queues
+    # of two instances are independent, whatever happens on the one must not show on the other
+    other = Rig(variant, bs)
+    OTHER = b"<<other instance>>"
+    try:
+        other.obj.tx(OTHER)
+    except Exception:   # noqa: BLE001  (the operation under test is exercised below)
+        other = None
     rig = Rig(variant, bs)
     obj = rig.obj
     queued = bytearray()
@@ -251,6 +259,11 @@ def run_case(case):
                                       "bytes unsent" % (len(queued) - len(rig.accepted()))))
                     else:
                         info["drained"] = True
+        if other is not None and ok:
+            left = b"".join(bytes(d) for d in other.obj.txes)
+            if left != OTHER or other.accepted():
+                fails.append(("instances-share-state:" + variant, "another %s object of this process had %r queued and was never "
+                              "serviced; afterwards its queue holds %r and its socket accepted %r" % (variant, OTHER, left[:40], other.accepted()[:40])))
         evs = rig.send_events()
         info["partial"] = any(n is not None and 0 < n < off for off, n in evs)
         pushed = []
